@@ -328,7 +328,7 @@ def prefix_table_agreement(ctx):
     # writer: tags before fields, prefix + key, compact flag selects the compact pair
     ser = ctx.prog.func("Point._serialize_to_list", "C05.R1")
     bad = []
-    rows = [n for n in walk_local(ser.node) if isinstance(n, ast.Assign) and isinstance(n.value, ast.Tuple)
+    rows = [n for n in walk_local(ser.node) if isinstance(n, (ast.Assign, ast.Return)) and isinstance(n.value, ast.Tuple)
             and any(isinstance(e, ast.Starred) for e in n.value.elts)]
     if len(rows) != 1:
         bad.append("row construction not recognised")
@@ -518,12 +518,21 @@ def lossless_encoders(ctx):
                  "; ".join(bad[:2]) if bad else "prefix + key verbatim, lossless value text", ser.loc())
     # reader: tag value is the text itself (or None for the sentinel); field value is int()/float() of the text
     bad = []
-    tv = [n for n in walk_local(de.node) if isinstance(n, ast.Assign) and norm(n.targets[0]) == "t_value"]
     row = de.params()[1]
-    if len(tv) != 1 or norm(tv[0].value) not in (
-            f"None if {row}[i + 1] == self._none_str else str({row}[i + 1])",
-            f"None if {row}[i + 1] == self._none_str else {row}[i + 1]"):
-        bad.append(f"tag value decoder is `{norm(tv[0].value, 80) if tv else '?'}`")
+    tv = [n for n in walk_local(de.node) if isinstance(n, ast.IfExp) and "_none_str" in norm(n.test)
+          and const_value(n.body) is None]
+    ok_tv = False
+    for n in tv:
+        t = n.test
+        if isinstance(t, ast.Compare) and isinstance(t.ops[0], ast.Eq):
+            cell = [x for x in (t.left, t.comparators[0]) if norm(x) != "self._none_str"]
+            if len(cell) == 1 and isinstance(cell[0], ast.Subscript) and norm(cell[0].value) == row:
+                c = norm(cell[0])
+                if norm(n.orelse) in (c, f"str({c})"):
+                    ok_tv = True
+    if not ok_tv:
+        bad.append(f"tag value decoder is `{norm(tv[0], 80) if tv else '?'}`, expected "
+                   f"`None if cell == SENTINEL else cell`")
     for c in walk_local(de.node):
         if isinstance(c, ast.Call) and norm(c.func) in ("int", "float", "round", "Decimal") and c.args:
             if norm(c.func) in ("round", "Decimal") or len(c.args) != 1 or c.keywords:
